@@ -980,7 +980,9 @@ impl Parser {
         if self.parsed_numbers.len() != 5 {
             return Err(ParserError::UnsupportedEscapeSequence(format!("Fill rectangular area needs 5 parameters {:?}", self.current_escape_sequence)).into());
         }
-        let ch: char = unsafe { char::from_u32_unchecked(self.parsed_numbers[0] as u32) };
+        let Some(ch) = char::from_u32(self.parsed_numbers[0] as u32) else {
+            return Err(ParserError::UnsupportedEscapeSequence(format!("Fill rectangular area: {} is no valid character code", self.parsed_numbers[0])).into());
+        };
 
         let (top_line, left_column, bottom_line, right_column) = self.get_rect_area(buf, 1);
         for y in top_line..=bottom_line {
